@@ -1,3 +1,4 @@
+\* shape validation: the WorkerQueue constants only serve to instantiate the module (Skeleton is a constant operator).
 CONSTANTS MaxWorkers = 1
           MaxTasks = 0
           MaxSpurious = 0
